@@ -173,7 +173,7 @@ PROPS["C06"] = dict(
     title="Generators layer like dictionaries and name their output by its final content",
     modules=["Kust.Props.C06"],
     theorems=["Kust.C06.over_get", "Kust.C06.over_assoc", "Kust.C06.create_on_absent", "Kust.C06.merge_on_absent_fails",
-              "Kust.C06.replace_on_absent_fails", "Kust.C06.create_on_present_fails", "Kust.C06.merge_on_present", "Kust.C06.replace_on_present",
+              "Kust.C06.replace_on_absent_fails", "Kust.C06.create_on_present_fails", "Kust.C06.merge_on_present", "Kust.C06.replace_on_present", "Kust.C06.merge_on_present_bin", "Kust.C06.replace_on_present_bin",
               "Kust.C06.layer_fold", "Kust.C06.suffix_ignores_envelope", "Kust.C06.equal_content_equal_suffix",
               "Kust.C06.subst_injective_on_hex", "Kust.C06.subst_expected", "Kust.C06.suffix_length"],
     components=["gen.hash", "gen.literals", "gen.absorb"],
